@@ -69,6 +69,12 @@ CHECKS.update({
    note=SCOPE_NOTE + " Readings: cycles prescribe nothing; a chain ending in a dangling reference may also overwrite the path's binding; assignment through an unresolvable identifier may raise ResolutionError.",
    tech="TLA+ scoping semantics + TLC-judged real edits through references"),
 })
+CHECKS.update({
+ "C19": dict(engine="laws", cat="model_checking", ref="DESIGN.md §7 C19",
+   text="The laws (idempotence, set-then-rm, rm-then-set, commutation) are invariants of Edit.tla that TLC checks over the reference semantics at every reachable seed document; every law instance the model yields is then executed on the real code (both sides, one object each) and TLC (Laws_Trace) compares the two outcomes (texts; attribute trees for rm-then-set).",
+   note=EDIT_NOTE + " Oracle-free on the code side: the two executions are compared with each other. Instances whose path holds a reference (aliases, C11) or whose rm would prune a layer are not law instances.",
+   tech="laws as TLC invariants of the spec + TLC-compared twin executions of the real code"),
+})
 import os
 built = {p: m for p, m in CHECKS.items()}
 checks = []
@@ -104,6 +110,8 @@ man = {
     "kind_free_text": "spec/Imports.tla (layouts, spellings, Target) -> real parse_file/import lookups on a scratch tree -> spec/Imports_Trace.tla"},
    {"name": "scoping", "path": "harness/engines/scoping.py", "serves_properties": ["C10", "C11"],
     "kind_free_text": "spec/Scoping.tla + MC_Scoping (all chains) -> real traversal / Identifier.value / set through reference -> spec/Scoping_Trace.tla"},
+   {"name": "laws", "path": "harness/engines/laws.py", "serves_properties": ["C19"],
+    "kind_free_text": "law instances from spec/Edit.tla transitions -> twin executions on the real code -> spec/Laws_Trace.tla"},
  ],
  "checks": checks,
  "notes": "All checks: ./check <ID> [--tier quick|thorough]; VERIF_SEED / VERIF_TIER honoured. Known findings: known_findings.json. See DESIGN.md.",
